@@ -217,6 +217,10 @@ def candidates(w: c20.World, rng):
         ops.append({"op": "TlSave", "l": rng.randint(1, len(w.tls)), "p": p})
     if w.file_kind[p] in ("trk", "tl") and len(w.tls) < 3 and len(w.trks) + _nsets(w, p) <= MAXTRKS_ALL:
         ops.append({"op": "TlLoad", "p": p})
+    if ne < MAXEV:
+        ops.append({"op": "EmLocate", "g": rng.randint(1, len(c20.IMAGES_A)), "w": rng.choice([-1, 2])})
+    if len(w.tcs) < MAXTCS:
+        ops.append({"op": "TcFromStorage", "L": [rng.randint(1, len(c20.IMAGES_A)) for _ in range(rng.randint(1, 3))], "w": rng.choice([-1, 2])})
     if w.tcs and len(w.tls) < 3:
         c = rng.randint(1, len(w.tcs))
         members = [d for em in w.tcs[c - 1].emulsions for d in list.__iter__(em)]
